@@ -209,16 +209,17 @@ inductive EvalRes
 
 def lstripSp (s : Str) : Str := lstrip s
 
-/-- the `string:` interpolation: `$$`, `${path}`, `$name` (up to the next space) -/
-def evalStringAux (evalPath : Str → Option Val) : Nat → Str → Str
+/-- the `string:` interpolation: `$$`, `${expr}` (a full TALES expression: `Context.evaluate`),
+    `$name` (up to the next space; a plain path: `Context.traversePath`) -/
+def evalStringAux (evalPath : Str → Option Val) (travPath : Str → Option Val) : Nat → Str → Str
   | 0, _ => []
   | _, [] => []
   | fuel + 1, c :: rest =>
-    if c != 36 then c :: evalStringAux evalPath fuel rest
+    if c != 36 then c :: evalStringAux evalPath travPath fuel rest
     else
       match rest with
       | [] => []                                              -- trailing `$`: suppressed
-      | 36 :: r => 36 :: evalStringAux evalPath fuel r
+      | 36 :: r => 36 :: evalStringAux evalPath travPath fuel r
       | 123 :: r =>
         if r.contains 125 then
           let path := takeUntil (· == 125) r
@@ -227,16 +228,16 @@ def evalStringAux (evalPath : Str → Option Val) : Nat → Str → Str
             | some .none => []
             | some v => render v
             | none => []
-          txt ++ evalStringAux evalPath fuel after
-        else evalStringAux evalPath fuel r                     -- no closing brace: `${` skipped
+          txt ++ evalStringAux evalPath travPath fuel after
+        else 123 :: evalStringAux evalPath travPath fuel r              -- no closing brace: the `$` is dropped, the text goes on with `{`
       | _ =>
         let name := takeUntil (· == 32) rest
         let after := dropUntil (· == 32) rest
-        let txt := match evalPath name with
+        let txt := match travPath name with
           | some .none => []
           | some v => render v
           | none => []
-        txt ++ evalStringAux evalPath fuel after
+        txt ++ evalStringAux evalPath travPath fuel after
 
 /-- `Context.evaluate` (fuel bounds the nesting of prefixes / alternatives).
     `pyEval` is the oracle for `python:` expressions, consulted only when allowed. -/
@@ -272,7 +273,7 @@ def evalFuel (pyEval : Str → Val) : Nat → Ctx → Str → EvalRes
     else if isPrefixB (lit "string:") expr then
       let e := lstripSp (expr.drop 7)
       .val (.str (evalStringAux (fun p => match evalFuel pyEval fuel c p with | .val v => some v | .notFound => some (.str []))
-        (e.length + 1) e))
+        (traversePath c) (e.length + 1) e))
     else if isPrefixB (lit "python:") expr then
       if c.allowPython then .val (pyEval (lstripSp (expr.drop 7))) else .val (.int 0)
     else evalPathE fuel c expr
